@@ -112,7 +112,9 @@ CLAIMED = {
              "name, all assertions evaluated at every update, every name stepped once per update (memo), later assertions sharing "
              "the nodes of earlier ones - returns for every assertion what a stand-alone monitor of the inlined formula returns "
              "(= rho), whatever the sharing. Correspondence: modular (multi-assertion text / add_sub_spec / declared constants) vs "
-             "inlined specification on the real offline, online and pastified monitors, and online run vs the mirror runProgram.",
+             "inlined specification on the real offline, online and pastified monitors, and online run vs the mirror runProgram. "
+             "Translator: the update visitor (visitAst / visitBinary / visitUnary / visitLeaf of abstract_online_interpreter.py) is regenerated "
+             "as Lean terms on every run and genGlue_visit / genGlue_run prove that its run is the mirror's visitM / runSpecs.",
         note="Lean kernel + standard axioms; the parser's substitution of references and constants, and name-injectivity of the "
              "printer, are validated by correspondence; dense monitors by correspondence only; tie sampled.",
         technique="Lean 4 proof (simulation between the name-keyed dictionary with memo and the family of stand-alone trees) + differential correspondence",
